@@ -326,6 +326,15 @@ func (e *Enc) havocPath(st *State, osc *SCtx, path string) error {
 			if err != nil {
 				return err
 			}
+			if pt, ok := t.Underlying().(*types.Pointer); ok {
+				if at, ok := pt.Elem().Underlying().(*types.Array); ok && !isStructVal(at.Elem()) {
+					es := sortOf(at.Elem())
+					name := "E:" + es
+					h := e.comp(st, name, arrSort(SInt, arrSort(SInt, es)))
+					st.heaps[name] = e.def("h", Store(h, v.T, e.fresh("elems", arrSort(SInt, es))))
+					return nil
+				}
+			}
 			sl, ok := t.Underlying().(*types.Slice)
 			if !ok {
 				return fmt.Errorf("elems() of non-slice")
@@ -556,6 +565,9 @@ func (e *Enc) modPathHeaps(ct *Contract, c *ssa.CallCommon, path string) ([]stri
 			t, err := typeOfExpr(x.Args[0])
 			if err != nil {
 				return nil, err
+			}
+			if at, ok := t.Underlying().(*types.Array); ok {
+				return []string{"E:" + sortOf(at.Elem())}, nil
 			}
 			if sl, ok := t.Underlying().(*types.Slice); ok {
 				if isStructVal(sl.Elem()) {
